@@ -495,3 +495,12 @@ func AsInstr(v ssa.Value) ssa.Instruction {
 	}
 	return nil
 }
+
+// RecvFieldAddrPath: addr is the address of a field path of fn's receiver.
+func RecvFieldAddrPath(fn *ssa.Function, addr ssa.Value) (string, bool) {
+	path, base := FieldPath(addr)
+	if path == "" || !IsRecvParam(fn, base) {
+		return "", false
+	}
+	return path, true
+}
